@@ -788,6 +788,53 @@ def rule_after_stop(ctx):
         ctx.ob(R, fi, ns[0], w is None, f"conn.close() can return without {k} (path: {_describe(w) if w else ''})", text="conn:" + k)
 
 
+def rule_blocked_callers(ctx):
+    R = "blocked-callers-woken"
+    ctx.rep.rule(R, "a getone()/getmany() blocked inside the fetcher when stop() runs is woken and told: Fetcher.close sets the closed flag "
+                    "before its first suspension and notifies every registered fetch waiter on every normal path; every waiter the hand-out "
+                    "loops create is registered; after waking, next_record re-tests the flag (raising ConsumerStoppedError) on every cycle and "
+                    "fetched_records tests it right after its wait")
+    fi = ctx.fn(f"{FETCHER}.close")
+    c = ctx.cfg(fi)
+    st = [n for n in c.stores(attr="_closed") if isinstance(n.stmt, ast.Assign) and isinstance(n.stmt.value, ast.Constant) and n.stmt.value.value is True]
+    ctx.anchor(len(st) == 1, "self._closed = True in Fetcher.close")
+    ctx.ob(R, fi, st[0], all(c.dominates(st[0], s) for s in ctx.suspension_nodes(fi)), "Fetcher.close can be suspended before the closed flag is set", text="flag-first")
+    loops = [h for h in c.nodes if h.kind == "loop" and isinstance(h.ast, ast.For) and unparse(h.ast.iter) in ("self._fetch_waiters", "list(self._fetch_waiters)", "tuple(self._fetch_waiters)")]
+    okn = False
+    if loops:
+        body = c.loop_body(loops[0])
+        tv = unparse(loops[0].ast.target)
+        okn = any(n.kind == "call" and ((call_attr(n.ast) == "_notify" and unparse(arg_of(n.ast, 0)) == tv) or (call_attr(n.ast) == "set_result" and unparse(n.ast.func.value) == tv)) for n in body)
+        okn = okn and paths_avoiding(c, loops[:1], _skip_edges(c, fi)) is None
+    ctx.ob(R, fi, fi.node, okn, "Fetcher.close does not notify every registered fetch waiter on every path: a blocked getone()/getmany() sleeps forever after stop()", text="notify-all")
+    fw = ctx.fn(f"{FETCHER}._create_fetch_waiter")
+    cw = ctx.cfg(fw)
+    ad = [n for n in cw.calls(attr="add") if unparse(n.ast.func.value) == "self._fetch_waiters"]
+    rets = [n for n in cw.nodes if n.kind == "return"]
+    ok = len(ad) == 1 and len(rets) == 1 and unparse(arg_of(ad[0].ast, 0)) == unparse(rets[0].ast.value) and cw.dominates(ad[0], rets[0])
+    ctx.ob(R, fw, fw.node, ok, "_create_fetch_waiter does not register the future it returns", text="waiter-registered")
+    for m in ("next_record", "fetched_records"):
+        f = ctx.fn(f"{FETCHER}.{m}")
+        cf = ctx.cfg(f)
+        waits = [n for n in cf.nodes if n.kind == "await" and isinstance(n.ast, ast.Await) and "waiter" in unparse(n.ast.value)]
+        ctx.anchor(len(waits) >= 1, f"wait on a fetch waiter in {m}")
+        mk = cf.calls(attr="_create_fetch_waiter")
+        ctx.ob(R, f, waits[0], len(mk) == 1 and cf.dominates(mk[0], waits[0]), f"{m} waits on a future that is not a registered fetch waiter", text=f"{m}:registered-waiter")
+        tests = [t for t in cf.nodes if t.kind == "test" and unparse(t.ast) == "self._closed"]
+        ok = bool(tests)
+        for w in waits:
+            # from the wake-up, no hand-out / further wait is reached without passing a closed test
+            nxt = cf.reachable([w], avoid=set(tests), exc=False)
+            again = [n for n in nxt if n.kind == "await" and n is not w and ctx.suspends(f, n)] + [n for n in nxt if n.kind == "call" and call_attr(n.ast) in ("getone", "getall")] + ([w] if w in nxt else [])
+            ok = ok and not again
+        ctx.ob(R, f, waits[0], ok, f"{m}: after being woken it can hand out records or sleep again without looking at the closed flag", text=f"{m}:retest-closed")
+    f = ctx.fn(f"{FETCHER}.next_record")
+    cf = ctx.cfg(f)
+    t = [t for t in cf.nodes if t.kind == "test" and unparse(t.ast) == "self._closed"]
+    ok = bool(t) and any(n.kind == "raise" and "ConsumerStoppedError" in unparse(n.ast) for n in cf.reachable([m for m, l in t[0].succ if l == "T"], exc=False, include_src=True))
+    ctx.ob(R, f, f.node, ok, "next_record does not raise ConsumerStoppedError when the fetcher is closed", text="next_record:raises-stopped")
+
+
 def rule_leave(ctx):
     R = "leave"
     ctx.rep.rule(R, "_maybe_leave_group sends LeaveGroupRequest(group, member) exactly when the member has a generation and is not static, "
@@ -823,6 +870,7 @@ def run(ctx):
     rule_closing_loops(ctx)
     rule_closing_waits(ctx)
     rule_after_stop(ctx)
+    rule_blocked_callers(ctx)
     rule_leave(ctx)
     rep.nd("the numeric bound on stop() latency (timeouts are runtime values)")
     rep.nd("that flush() inside producer.stop() completes: it waits for delivery by design, bounded only by the sender's progress")
